@@ -62,6 +62,12 @@ def value_pool():
                        ('tag_num', {'t': 2, 'c': {'y': [1, 2]}})):
         out.append((('dc', leaf, data), leaf, 'tagged'))
         out.append((('dc', ['list', leaf], [data, data]), ['list', leaf], 'tagged'))
+    # strings that another notation would read as numbers (YAML 1.1 wants a dot in a float; JSON does not), under every option setting
+    out.append((['1e3', 'NaN', 'Infinity', '1E5', '-1e-3', '12e03'], ['list', 'str'], 'looks_numeric'))
+    out.append((['1e3', 2.5, '-Infinity'], ['list', ['union', 'float', 'str']], 'looks_numeric'))
+    # text no encoder can write as it is (a lone surrogate, e.g. from os.fsdecode): JSON escapes it; YAML has no way to write it
+    out.append(('\udcff', 'str', 'json_only'))
+    out.append(({'k\udcff': ['v\udcff', 'é']}, ['dict', 'str', ['list', 'str']], 'json_only'))
     # a declared type that is a SUBCLASS of str (what is written must still be plain text the dumpers know)
     out.append((('dc', ('obj', 'substr'), 'host-é'), ('obj', 'substr'), 'str subclass'))
     out.append((('dc', ('obj', 'list_substr'), ['a', 'b']), ('obj', 'list_substr'), 'str subclass'))
@@ -435,7 +441,7 @@ def plan(tier, seed):
 def run_value(pane, res, vi, tier, tmp, only=None):
     pool = value_pool()
     entry = materialise(pane, pool[vi])
-    full_cube = tier == 'thorough' or vi % 2 == 0 or pool[vi][2] == 'dataclass'
+    full_cube = tier == 'thorough' or vi % 2 == 0 or pool[vi][2] in ('dataclass', 'looks_numeric')
     todo = []
     for o in JSON_OPTS:
         todo.append(('json', 'stringio', 'stringio', o))
@@ -452,6 +458,8 @@ def run_value(pane, res, vi, tier, tmp, only=None):
                     todo.append((fmt, sink, source, o))
     for fmt, sink, source, o in todo:
         if only is not None and (fmt, sink, source, o) != only:
+            continue
+        if fmt == 'yaml' and pool[vi][2] == 'json_only':
             continue
         if fmt == 'json' and isinstance(entry[0], float) and entry[0] in (values.INF,):
             pass
